@@ -196,6 +196,8 @@ class SparseGrid(TrainingData, PickleSerializable):
                 skip_coord = False
                 yi_curr = copy.deepcopy(self.yi_map[alpha][coord])
                 output_vars = self._numeric_outputs(yi_curr)
+                if y_vars is not None:
+                    output_vars = [var for var in output_vars if var in y_vars]  # other outputs have no say here
                 if skip_nan and y_vars is not None and any(yi_curr.get(var) is None for var in y_vars):
                     continue  # a requested quantity that was not returned at this point (failed evaluation) is missing too
                 for var in output_vars:
